@@ -107,6 +107,25 @@ func runC12(r *Report) {
 		}
 	}
 
+	// single dispatcher: the reader table is consulted only by readNextMessage, which is where
+	// attributes are collected and the RESP2 null is translated; a second dispatcher would skip both
+	nDisp := 0
+	for _, f := range p.ModuleFuncs() {
+		if !strings.HasPrefix(FuncName(f), "rueidis.") || strings.HasPrefix(FuncName(f), "rueidis.init") {
+			continue
+		}
+		for _, b := range f.Blocks {
+			for _, in := range b.Instrs {
+				ia, ok := in.(*ssa.IndexAddr)
+				if !ok || !strings.HasSuffix(Desc(ia.X), "rueidis.readers") {
+					continue
+				}
+				nDisp++
+				r.ObSite("R12a", SiteOf(in), "single-dispatcher", FuncName(f) == "rueidis.readNextMessage", "the reader table is indexed only in readNextMessage (attribute frames and the RESP2 null are handled there)")
+			}
+		}
+	}
+	r.Anchor("R12a", "dispatch site", nDisp >= 1)
 	rdr := func(v ssa.Value) bool { // the function's own reader parameter (possibly wrapped as io.Reader)
 		if mi, ok := v.(*ssa.MakeInterface); ok {
 			v = mi.X
@@ -546,6 +565,7 @@ func runC12(r *Report) {
 			}
 		}
 		// scalar arm: un-read, decode, write the value's text
+		r.Anchor("R12c", "streamTo delegates non-blob replies to readNextMessage", len(CallSites(fn, "rueidis.readNextMessage")) == 1)
 		for _, s := range CallSites(fn, "rueidis.readNextMessage") {
 			un := false
 			for _, in := range s.Block.Instrs[:s.Idx] {
